@@ -11,18 +11,54 @@ import (
 
 type Source = rand.Source
 
-func NewSource(seed int64) Source { return rand.NewSource(seed) }
-
-type Rand struct {
-	real *rand.Rand
+// seedSource remembers the seed it was made from.
+type seedSource struct {
+	rand.Source
+	seed int64
 }
 
-func New(src Source) *Rand { return &Rand{real: rand.New(src)} }
+func NewSource(seed int64) Source { return &seedSource{Source: rand.NewSource(seed), seed: seed} }
+
+// Rand is a generator. Under an environment there are two kinds:
+//   - a generator that already existed when the environment was installed (the package-level ones, seeded
+//     from the clock at start-up): every draw is an environment answer, a function of the drawing process
+//     and its own history - distinct processes never draw the same value;
+//   - a generator made from an explicit seed WHILE the code under test runs: it is what it is in reality, a
+//     deterministic function of its seed - two generators made from the same seed yield the same sequence
+//     (the program's own doing, not the environment's).
+type Rand struct {
+	real   *rand.Rand
+	seeded bool
+	seed   int64
+	n      uint64
+}
+
+func New(src Source) *Rand {
+	r := &Rand{real: rand.New(src)}
+	if ss, ok := src.(*seedSource); ok && rt.E != nil {
+		r.seeded, r.seed = true, ss.seed
+	}
+	return r
+}
 
 var global = New(NewSource(1))
 
+func mix(seed int64, n uint64) int64 {
+	x := uint64(seed)*0x9e3779b97f4a7c15 + n*0xbf58476d1ce4e5b9
+	x ^= x >> 30
+	x *= 0xbf58476d1ce4e5b9
+	x ^= x >> 27
+	x *= 0x94d049bb133111eb
+	x ^= x >> 31
+	return int64(x >> 1)
+}
+
 func (r *Rand) Int63() int64 {
 	if rt.E != nil {
+		if r.seeded {
+			r.n++
+			return mix(r.seed, r.n)
+		}
 		return rt.E.Rand63()
 	}
 	return r.real.Int63()
@@ -43,7 +79,12 @@ func (r *Rand) Int63n(n int64) int64 {
 func (r *Rand) Int31n(n int32) int32 { return int32(r.Int63n(int64(n))) }
 func (r *Rand) Intn(n int) int       { return int(r.Int63n(int64(n))) }
 func (r *Rand) Float64() float64     { return float64(r.Int63n(1<<53)) / (1 << 53) }
-func (r *Rand) Seed(seed int64)      {}
+func (r *Rand) Seed(seed int64) {
+	if rt.E != nil {
+		r.seeded, r.seed, r.n = true, seed, 0
+	}
+	r.real.Seed(seed)
+}
 
 func Int63() int64         { return global.Int63() }
 func Uint32() uint32       { return global.Uint32() }
